@@ -41,6 +41,7 @@ class Profile:
         self.p_active_guard = 0.12     # guards that also read the configuration through active()
         self.active_in_actions = True  # actions may read the configuration through active()
         self.use_objects = False        # context holds an object, a list and a function defined in the preamble (b, l, ok)
+        self.p_char_names = 0.12       # per chart: three states named by single characters occurring in the other names
         self.p_varied_names = 0.12     # per chart: state names of varied shape (unicode, long, mixed case, digits) instead of nDD
         self.p_large = 0.05            # per chart: a large statechart (up to 40 states, deeper nesting)
         self.p_cross_region = 0.0      # probability of KEEPING a transition that crosses between sibling regions (outside section 2)
@@ -78,7 +79,7 @@ class Gen:
         names = NAMES[:max(n, 1) + 20]
         if self.p.shuffle_names:
             self.rng.shuffle(names)
-        if self.rng.random() < 0.12:
+        if self.rng.random() < self.p.p_char_names:
             # names that are single characters of the other names (a string is also an iterable of its characters)
             extra = self.rng.sample(['n', '0', '1', '2'], 3)
             for i, e in zip(self.rng.sample(range(min(len(names), max(n, 3))), 3), extra):
